@@ -34,15 +34,17 @@
     duplicate avoidance with the testedEdges set as repaired, conservative cell distances) are
     covered by [approx_single_result_within_error] and [approx_results_within_error].
 
-    For a finite limit the clean-up loop of initQueue is proved to hand over only sound entries
-    ([centry_ok]: an entry with contents is an index cell UNDER ITS OWN ID with exactly its
-    contents; in the LocateCellID = Indexed branch it is the index cell containing the initial
-    cell, which rules out seeded change C08-mut3); [CoverFinite] keeps only: the initial cells are
-    valid ids, fewer than 2^17, and the entries represent every index cell within the limit.
+    For a finite limit the clean-up loop of initQueue is proved (C08_Cleanup.v) to hand over only
+    sound entries ([centry_ok]: an entry with contents is an index cell UNDER ITS OWN ID with
+    exactly its contents; rules out seeded change C08-mut3) and to be COMPLETE: every index cell
+    met by an initial cell is represented by an emitted entry — enqueued under its own id
+    (Indexed), through the enqueued covering cell (Subdivided, or a top-level covering cell), none
+    exists when LocateCellID says Disjoint, and the skipped sibling covering cells lie inside the
+    index cell already enqueued (laminarity). [CoverFinite] therefore keeps only: the initial
+    cells are valid ids in increasing order, fewer than 2^17, and cover the search cap (every
+    index cell with an edge within the limit meets one of them: H-CAPARITH, C05).
 
-    TODO: the representation half of [CoverFinite] (skip / indexCovering walk of the clean-up
-    loop given the search cap's covering); LB / Val for the float
-    distance functions (H-CELLDIST, H-EDGEDIST). *)
+    TODO: LB / Val for the float distance functions (H-CELLDIST, H-EDGEDIST). *)
 From Coq Require Import ZArith List Bool Sorted.
 From Geo Require Import Model.EdgeQuery Proofs.C05_CellFacts Proofs.C08_Post Proofs.C08_Opt Proofs.C08_Heap Proofs.C08_Main Proofs.C08_Refute
   Proofs.C08_Cells Proofs.C08_Split Proofs.C08_Term Proofs.C08_Cover Proofs.C08_Cleanup Proofs.C08_Approx Proofs.C08_Final Proofs.C08_Example.
@@ -197,6 +199,16 @@ Theorem init_queue_indexed_branch_enqueues_the_index_cell : forall x, IndexWF x 
   fst ce = fst (cell_at x pos) /\ cid_contains (fst ce) idI = true.
 Proof. exact cleanup_indexed_branch. Qed.
 Print Assumptions init_queue_indexed_branch_enqueues_the_index_cell.
+
+(** ... and the loop is complete: every index cell met by an initial cell (one's id in the other's
+    range) is represented by an emitted entry *)
+Theorem init_queue_cleanup_represents_every_cell_met : forall x, IndexWF x -> forall cov,
+  (forall ce, In ce cov -> centry_good x ce) ->
+  forall cells, (forall id, In id cells -> valid id) -> StronglySorted Z.lt cells ->
+  forall j idI c, In idI cells -> In c (x_cells x) -> meets idI c ->
+  exists ce, In ce (cleanup_initial x cells cov j None) /\ rep ce c.
+Proof. exact cleanup_represents_top. Qed.
+Print Assumptions init_queue_cleanup_represents_every_cell_met.
 
 (** the search loop empties its queue within the modelled fuel *)
 Theorem search_terminates : forall D (ops : dist_ops D), DistOK ops ->
